@@ -1729,6 +1729,18 @@ def r20_5(ctx: Ctx, rep: Report, sl: Set[Func]) -> None:
                     v = ctx.folder.fold(arg, f.module, env)
                     if isinstance(v, str):
                         pats.setdefault(v, (f, n))
+                    elif isinstance(arg, ast.Name) and arg.id in f.params and f.name.startswith("_") and f.qualname not in ("helpers.findall1", "helpers.findall2", "helpers.findall3", "helpers.re_find_t"):
+                        # the pattern is a parameter of a private helper (`_parse_required(regex, line, keys)`): every
+                        # pattern a caller hands in is examined where it is assembled
+                        for g_ in ctx.prog.funcs:
+                            for e_ in ctx.cg.all_edges(g_):
+                                if e_.target is f and isinstance(e_.site, ast.Call) and e_.kind == "call" and not e_.weak:
+                                    a_ = Discharger._arg_for(f, e_.site, arg.id)
+                                    pv = ctx.folder.fold(a_, g_.module, ctx.folder.local_env(g_)) if a_ is not None else None
+                                    if isinstance(pv, str):
+                                        pats.setdefault(pv, (g_, e_.site))
+                                    else:
+                                        rep.note(f"R20.5 pattern handed to {f.qualname} by {g_.qualname} is not foldable")
                     elif f.qualname not in ("helpers.findall1", "helpers.findall2", "helpers.findall3", "helpers.re_find_t") and not isinstance(arg, ast.Name):
                         rep.note(f"R20.5 pattern at {f.qualname} is not foldable: {snippet(arg)}")
     # patterns compiled once at module level and applied by functions of the slice
